@@ -172,7 +172,7 @@ PROPS = {
     "C16": {
         "level": "exploration",
         "interpreters": PRODUCERS,
-        "rule": "S-CLI completely: presence/absence of each program source {file, -c, -e, -m} (16 combinations: 4 valid, 12 usage errors) x all 2^5 subsets of {--dis, --dis-after, --source, --no-normalize, --json} x 10 programs (empty; two lines; nested functions/closure/class; NaN/inf/-0.0/bytes/surrogate/complex/huge-int/tuple/frozenset constants; 300 constants; non-ASCII; async/comprehension/try/while; lines >255 apart; backslash-n inside literals; one-line suites) = 5120 argv vectors per interpreter, each run in-process through code_data._cli.main(); the vectors with no flag and with all flags are also run through the real entry point in a subprocess and must agree. Oracle: usage error (exit 2) iff the number of sources != 1; else exit 0, the printed CodeData line textually equals repr() of the API result (normalized unless --no-normalize), the printed JSON loads back to it, --dis/--dis-after listings equal the harness's own dis of the program (opnames and resolved operands).",
+        "rule": "S-CLI completely: presence/absence of each program source {file, -c, -e, -m} (16 combinations: 4 valid, 12 usage errors) x all 2^5 subsets of {--dis, --dis-after, --source, --no-normalize, --json} x 12 programs (empty; two lines (its -e form builds the text from `linesep` inside a generator expression); nested functions/closure/class; NaN/inf/-0.0/bytes/surrogate/complex/huge-int/tuple/frozenset constants; 300 constants; non-ASCII; async/comprehension/try/while; lines >255 apart; a latin-1 coding cookie; a UTF-8 BOM; backslash-n inside literals; one-line suites) = 6144 argv vectors per interpreter, each run in-process through code_data._cli.main(); the vectors with no flag and with all flags are also run through the real entry point in a subprocess and must agree. Oracle: usage error (exit 2) iff the number of sources != 1; else exit 0, the printed CodeData line textually equals repr() of the API result (normalized unless --no-normalize), the printed JSON loads back to it, --dis/--dis-after listings equal the harness's own dis of the program (opnames and resolved operands).",
         "assumptions": TRUST + ["the plain-console path is checked (rich is not installed on the producer interpreters)"],
         "required_reach": {"quick": ["usage-error:0-sources", "usage-error:2-sources", "usage-error:4-sources", "prints-api-result:file", "prints-api-result:-c", "prints-api-result:-e", "prints-api-result:-m", "json-ok", "dis-after-ok", "subprocess-agrees"]},
     },
@@ -264,7 +264,7 @@ MANIFEST_TEXT = {
         "technique": "exhaustive operation-history enumeration on shared objects with state snapshots after every step",
     },
     "C16": {
-        "text": "Exhaustive over the argv space S-CLI (all source-option combinations x all output-flag subsets x 10 programs) on each interpreter, in-process and (for the extreme flag sets) through the real entry point; the printed text is compared with the API's own result computed in the same process.",
+        "text": "Exhaustive over the argv space S-CLI (all source-option combinations x all output-flag subsets x 12 programs) on each interpreter, in-process and (for the extreme flag sets) through the real entry point; the printed text is compared with the API's own result computed in the same process.",
         "design_ref": "DESIGN.md section 4 C16",
         "note": BASE_NOTE,
         "technique": "exhaustive enumeration of argument vectors; printed output compared textually with the API result",
